@@ -49,7 +49,7 @@ theorem inv2_applyWrite {st : St} (hr : st.phase = .running) (hi : Inv st) (h : 
     case isFalse hw =>
       simp at hw
       obtain ⟨hw', hacq⟩ := hw
-      obtain ⟨hrun, hcons, hseq, hlog, h0⟩ := hi.infl fl hfl
+      obtain ⟨hrun, hcons, hseq, hbads, hlog, h0⟩ := hi.infl fl hfl
       obtain ⟨f1, _, _, _⟩ := hi.flags fl hfl
       have hss := hi.stored_seq (by rw [hr]; decide)
       obtain ⟨a, b, c, d⟩ := h
@@ -119,13 +119,12 @@ theorem inv2_dataCommit {st : St} (hr : st.phase = .running) (hi : Inv st) (h : 
       obtain ⟨hnc, _⟩ := hg
       obtain ⟨a, b, c, d⟩ := h
       obtain ⟨hc1, hc2⟩ := hi.fz_capt fz hfz
-      have h1 := hi.ack_lo
-      have h6 := hi.ack_stored
+      have h22 := hi.stored_lo
       have hst : ov (newStored fz.captured st.stored) = ov fz.captured := by
         unfold newStored
         cases hcap : fz.captured with
         | some x => rfl
-        | none => simp only [hcap, ov, Option.getD_none] at *; omega
+        | none => simp only [hcap, ov, Option.getD_none] at hc2 h22 ⊢; omega
       constructor
       · simp only [latestStored]; rw [a]
       · exact ⟨fun r hr' => by rw [← a]; exact d fz hfz hnc r hr', b⟩
@@ -181,7 +180,13 @@ theorem inv2_step (cfg : Cfg) {st : St} (e : Ev) (hi : Inv st) (h : Inv2 st) : I
     split
     · split
       · exact h
-      · apply inv2_same h <;> (unfold doApplyBegin beginAt ackTo; (repeat' split) <;> rfl)
+      · apply inv2_same h <;> (unfold doApplyBegin beginAt ignoreMsg ackTo; (repeat' split) <;> rfl)
+    · exact h
+  case appendBad =>
+    split
+    · split
+      · exact h
+      · exact inv2_same h rfl rfl rfl rfl
     · exact h
   case applyTake =>
     split
@@ -240,11 +245,11 @@ theorem inv2_step (cfg : Cfg) {st : St} (e : Ev) (hi : Inv st) (h : Inv2 st) : I
     · apply inv2_same h <;> (unfold doLogGC; (repeat' split) <;> rfl)
     · exact h
 
-theorem inv2_run (cfg : Cfg) (evs : List Ev) {st : St} (hg : GapFree cfg st evs) (hi : Inv st) (h : Inv2 st) :
-    Inv2 (run cfg st evs) := by
+theorem inv2_run (cfg : Cfg) (hx : cfg.ignoreExact = true) (evs : List Ev) {st : St} (hg : GapFree cfg st evs)
+    (hi : Inv st) (h : Inv2 st) : Inv2 (run cfg st evs) := by
   induction evs generalizing st with
   | nil => exact h
-  | cons e es ih => exact ih hg.2 (inv_step cfg e hg.1 hi) (inv2_step cfg e hi h)
+  | cons e es ih => exact ih hg.2 (inv_step cfg hx e hg.1 hi) (inv2_step cfg e hi h)
 
 
 /-! ### (B) the replica loop catches up -/
@@ -279,14 +284,15 @@ theorem apply_tail_none (cfg : Cfg) {st : St} (hr : st.phase = .running) (h : st
     applyCommit_none h]
 
 /-- `doApplyBegin` on an idle running node: nothing pending -> no change; otherwise the head moves by
-one and either the entry is in flight (fresh) or it was rejected -/
-theorem applyBegin_effect {st : St} (hi : Inv st) (hn : st.inflight = none) :
-    (¬ st.consumed < st.appended → doApplyBegin st = st) ∧
+one and either the entry is in flight (fresh), or it was rejected, or it was corrupt and only the
+consumer group / family sequence moved -/
+theorem applyBegin_effect (cfg : Cfg) {st : St} (hi : Inv st) (hn : st.inflight = none) :
+    (¬ st.consumed < st.appended → doApplyBegin cfg st = st) ∧
     (st.consumed < st.appended →
-      (doApplyBegin st).phase = st.phase ∧ (doApplyBegin st).log = st.log ∧
-      (doApplyBegin st).consumed = st.consumed + 1 ∧
-      ((doApplyBegin st).inflight = none ∨
-        ∃ m t, (doApplyBegin st).inflight = some (InFlight.fresh (st.consumed + 1) m t))) := by
+      (doApplyBegin cfg st).phase = st.phase ∧ (doApplyBegin cfg st).log = st.log ∧
+      (doApplyBegin cfg st).consumed = st.consumed + 1 ∧ (doApplyBegin cfg st).walGone = st.walGone ∧
+      ((doApplyBegin cfg st).inflight = none ∨
+        ∃ m t, (doApplyBegin cfg st).inflight = some (InFlight.fresh (st.consumed + 1) m t))) := by
   constructor
   · intro hlt
     unfold doApplyBegin
@@ -294,18 +300,26 @@ theorem applyBegin_effect {st : St} (hi : Inv st) (hn : st.inflight = none) :
   · intro hlt
     have hg : st.inflight.isNone = true ∧ st.consumed + 1 ≤ st.appended := ⟨by simp [hn], by omega⟩
     have hgc : ¬ (st.consumed + 1 < st.gcLow) := by have := hi.gc_ack; have := hi.ack_cons; omega
-    have hs0 : 0 ≤ st.consumed + 1 := by have := hi.ack_lo; have := hi.ack_cons; omega
     have hlen : (st.consumed + 1).toNat < st.log.length := by
-      have := hg.2; simp only [St.appended] at this; omega
-    obtain ⟨⟨m, t⟩, hl⟩ : ∃ p, st.log[(st.consumed + 1).toNat]? = some p :=
+      have := hg.2; have := hi.ack_lo; have := hi.ack_cons; simp only [St.appended] at *; omega
+    obtain ⟨p, hl⟩ : ∃ p, st.log[(st.consumed + 1).toNat]? = some p :=
       ⟨st.log[(st.consumed + 1).toNat], by simp [hlen]⟩
     unfold doApplyBegin
     rw [if_pos hg]
     unfold beginAt
     simp only [hgc, if_false, hl]
-    split
-    · exact ⟨rfl, rfl, rfl, Or.inr ⟨m, t, rfl⟩⟩
-    · exact ⟨rfl, rfl, rfl, Or.inl hn⟩
+    cases p with
+    | some mt =>
+      obtain ⟨m, t⟩ := mt
+      simp only []
+      split
+      · exact ⟨rfl, rfl, rfl, rfl, Or.inr ⟨m, t, rfl⟩⟩
+      · exact ⟨rfl, rfl, rfl, rfl, Or.inl hn⟩
+    | none =>
+      simp only []
+      split
+      · rw [ignoreMsg_eq]; exact ⟨rfl, rfl, rfl, rfl, Or.inl hn⟩
+      · exact ⟨rfl, rfl, rfl, rfl, Or.inl hn⟩
 
 /-- what one whole `localReplicator.Replica` does to an idle running node whose log still exists -/
 theorem applyRound_effect (cfg : Cfg) {st : St} (hi : Inv st) (hr : st.phase = .running)
@@ -317,14 +331,13 @@ theorem applyRound_effect (cfg : Cfg) {st : St} (hi : Inv st) (hr : st.phase = .
   have hrun : run cfg st applyRound =
       run cfg (step cfg st .applyBegin) [.applyTake, .applyAcquire, .applyWrite, .applyCommit] := rfl
   rw [hrun]
-  obtain ⟨hb0, hb1⟩ := applyBegin_effect hi hn
-  have s1 : step cfg st .applyBegin = doApplyBegin st := by simp [step, whenRunning, hr, hwg]
+  obtain ⟨hb0, hb1⟩ := applyBegin_effect cfg hi hn
+  have s1 : step cfg st .applyBegin = doApplyBegin cfg st := by simp [step, whenRunning, hr, hwg]
   rw [s1]
-  have hwg' : (doApplyBegin st).walGone = false := by
-    unfold doApplyBegin beginAt ackTo; (repeat' split) <;> exact hwg
   by_cases hlt : st.consumed < st.appended
-  · obtain ⟨b1, b2, b3, b4⟩ := hb1 hlt
-    have r1 : (doApplyBegin st).phase = .running := by rw [b1, hr]
+  · obtain ⟨b1, b2, b3, bw, b4⟩ := hb1 hlt
+    have hwg' : (doApplyBegin cfg st).walGone = false := by rw [bw, hwg]
+    have r1 : (doApplyBegin cfg st).phase = .running := by rw [b1, hr]
     rcases b4 with b4 | ⟨m, t, b4⟩
     · rw [apply_tail_none cfg r1 b4]
       exact ⟨r1, b4, b2, hwg', fun _ => b3, fun h => absurd hlt h⟩
@@ -360,7 +373,7 @@ theorem gapFree_rounds (cfg : Cfg) (n : Nat) (st : St) : GapFree cfg st (rounds 
     · simp [applyRound] at he; rcases he with rfl | rfl | rfl | rfl | rfl <;> decide
     · exact ih e he
 
-theorem rounds_catch_up (cfg : Cfg) (n : Nat) {st : St} (hi : Inv st) (hr : st.phase = .running)
+theorem rounds_catch_up (cfg : Cfg) (hx : cfg.ignoreExact = true) (n : Nat) {st : St} (hi : Inv st) (hr : st.phase = .running)
     (hn : st.inflight = none) (hwg : st.walGone = false) (hd : st.appended - st.consumed ≤ n) :
     Inv (run cfg st (rounds n)) ∧ (run cfg st (rounds n)).phase = .running ∧
     (run cfg st (rounds n)).inflight = none ∧ (run cfg st (rounds n)).log = st.log ∧
@@ -375,7 +388,7 @@ theorem rounds_catch_up (cfg : Cfg) (n : Nat) {st : St} (hi : Inv st) (hr : st.p
     have e : rounds (n + 1) = applyRound ++ rounds n := rfl
     rw [e, run_append]
     obtain ⟨p1, p2, p3, pw, p4, p5⟩ := applyRound_effect cfg hi hr hn hwg
-    have hi1 : Inv (run cfg st applyRound) := inv_run cfg applyRound (gapFree_rounds cfg 1 st) hi
+    have hi1 : Inv (run cfg st applyRound) := inv_run cfg hx applyRound (gapFree_rounds cfg 1 st) hi
     have happ : (run cfg st applyRound).appended = st.appended := by simp [St.appended, p3]
     have hd1 : (run cfg st applyRound).appended - (run cfg st applyRound).consumed ≤ n := by
       rw [happ]
